@@ -323,7 +323,7 @@ def finish(mod, prop, tier, seed, t0, insts, results, skipped, known, pre):
             states=tot["paths"], transitions=max(tot["decisions"], 1),
             traces_validated_against_impl=validated,
             samples=samples or [dict(note="no sample")],
-            explanation=getattr(mod, "EXPLANATION", ""),
+            explanation=getattr(mod, "EXPLANATION", "") or " ".join((mod.__doc__ or "").split())[:2500],
             instances=len(results), instances_total=len(insts),
             instances_skipped_soft_budget=len(skipped),
             instances_incomplete=[_jsonable(x) for x in incomplete][:20],
